@@ -465,6 +465,23 @@ class C05(Prop):
             limit = rng2.choice(["inf", "flatten", "concat", 1, 2, 5, 20])
             out.append(mk_case(limit, inners, evs, "threads" if i % 5 == 0 else "local", kind="many-inners"))
         out += self.kick_cases()
+        # two hot inners driven from two OS threads: inner j2 emits WHILE the subscriber is being called for an item of inner
+        # j (event `rinner j n j2 n2`, thread-safe flavour).  The operator hands items over with its cell held, so the second
+        # emission waits its turn: nothing is lost (seed C05-12 took the downstream observer out of the cell for the
+        # duration of the call).  The model line is that of the two emissions one after the other.
+        for limit in ("inf", 2, 5):
+            for via_second in ((1, ["n", "2"]), (1, "c"), (0, ["n", "2"])):
+                for pre in ([], [["inner", "1", ["n", "9"]]]):
+                    inners = [["hot", "0"], ["hot", "1"]]
+                    evs = [["outer", ["o", "0"]], ["outer", ["o", "1"]]] + pre
+                    evs.append(["rinner", "0", ["n", "1"], str(via_second[0]), via_second[1]])
+                    evs += [["inner", "0", ["n", "3"]], ["inner", "1", ["n", "4"]], ["inner", "0", "c"], ["inner", "1", "c"],
+                            ["outer", "c"]]
+                    exp = ([9] if pre else []) + [1] + ([2] if via_second[1] != "c" else []) + [3] + \
+                        ([4] if via_second[1] != "c" else [])
+                    c = mk_case(limit, inners, evs, "threads", kind="race")
+                    c.fields.append(("expectr", [str(x) for x in sorted(exp)]))
+                    out.append(c)
         return out
 
     def kick_cases(self):
@@ -567,6 +584,18 @@ class C05(Prop):
 
     # -------------------------------------------------------------- oracle
     def oracle(self, case, lines, model_lines=None):
+        if case.field("expectr"):
+            got = []
+            for k in range(len(case.events)):
+                b = parse_body(lines.get(k))
+                if b is None or isinstance(b, str):
+                    return {"kind": "stuck:" + str(b).split()[0], "event": k, "detail": f"{b} at {case.events[k]}"}
+                got += [x for x in b if not isinstance(x, str)]
+            want = sorted(int(x) for x in case.field("expectr"))
+            if sorted(got) != want:
+                return {"kind": "race-items", "event": len(case.events) - 1,
+                        "detail": f"delivered {sorted(got)}, every item of the two inners once = {want}"}
+            return None
         if case.field("expect"):
             got, terms = [], []
             for k in range(len(case.events)):
@@ -613,7 +642,7 @@ class C05(Prop):
 
     # -------------------------------------------------------------- shrinking
     def shrink_candidates(self, case):
-        if case.field("expect"):
+        if case.field("expect") or case.field("expectr"):
             return []          # the expected multiset is part of the case: it is kept as generated
         cands = []
         # drop an event
